@@ -82,6 +82,10 @@ fn main() {
             }
             0
         }
+        Some("freerun-during") => freerun_during(
+            args.get(2).and_then(|s| s.parse().ok()).unwrap_or(10),
+            args.get(3).and_then(|s| s.parse().ok()).unwrap_or(0),
+        ),
         Some("freerun") => freerun(args.get(2).and_then(|s| s.parse().ok()).unwrap_or(10)),
         Some("replay") => vx_core::check::replay_main(args.get(2).expect("replay file")),
         _ => {
@@ -142,10 +146,25 @@ fn freerun(interval_ms: u64) -> i32 {
         }
         worst = worst.max(t0.elapsed());
     }
-    // the reporter is invoked every interval even when nothing was collected
+    // (informational only: whether the reporter is invoked when nothing was collected is not
+    // something the property fixes)
     let c0 = calls.load(Ordering::SeqCst);
     std::thread::sleep(Duration::from_millis(interval_ms * 10 + 100));
     let idle_calls = calls.load(Ordering::SeqCst) - c0;
+    // Spans that finish while the collector thread is in the middle of a cycle: one fresh process per
+    // variant (a process in which set_reporter was called more than once has several collector
+    // threads, which cover for one another).
+    let during_cycle_missing: u64 = (0..3u64)
+        .map(|variant| {
+            let out = std::process::Command::new(std::env::current_exe().unwrap())
+                .args(["freerun-during", &interval_ms.to_string(), &variant.to_string()])
+                .output();
+            match out {
+                Ok(o) => String::from_utf8_lossy(&o.stdout).trim().parse::<u64>().unwrap_or(99),
+                Err(_) => 99,
+            }
+        })
+        .sum();
     // Replacing the reporter at run time: spans that finish while the old reporter is being torn
     // down are not lost; they reach the new reporter.
     let replaced_missing = {
@@ -191,11 +210,94 @@ fn freerun(interval_ms: u64) -> i32 {
     };
     println!(
         "{}",
-        serde_json::json!({"interval_ms": interval_ms, "rounds": rounds, "rounds_not_delivered_in_time": late, "deadline_ms": deadline.as_millis() as u64, "worst_latency_ms": worst.as_secs_f64() * 1000.0, "idle_report_calls_in_10_intervals": idle_calls, "spans_lost_while_the_reporter_was_replaced": replaced_missing})
+        serde_json::json!({"interval_ms": interval_ms, "rounds": rounds, "rounds_not_delivered_in_time": late, "deadline_ms": deadline.as_millis() as u64, "worst_latency_ms": worst.as_secs_f64() * 1000.0, "idle_report_calls_in_10_intervals": idle_calls, "spans_finished_during_a_cycle_and_not_delivered_afterwards": during_cycle_missing, "spans_lost_while_the_reporter_was_replaced": replaced_missing})
     );
-    if late > 0 || idle_calls == 0 || replaced_missing > 0 {
+    if late > 0 || during_cycle_missing > 0 || replaced_missing > 0 {
         1
     } else {
         0
     }
+}
+
+/// One variant of "a span finishes while the collector thread is inside a slow report(), then the
+/// program goes quiet": set_reporter is called exactly once in this process. Prints the number of
+/// records that were not delivered in time.
+fn freerun_during(interval_ms: u64, only_variant: u64) -> i32 {
+    use fastrace::collector::Config;
+    use fastrace::collector::Reporter;
+    use fastrace::collector::SpanRecord;
+    use fastrace::prelude::*;
+    use std::sync::atomic::AtomicU64;
+    use std::sync::atomic::Ordering;
+    use std::sync::Arc;
+    use std::time::Duration;
+    use std::time::Instant;
+    let deadline = Duration::from_millis(interval_ms * 20 + 500);
+    let missing: u64 =
+    // Spans that finish while the collector thread is in the middle of a cycle (inside a slow
+    // report()), after which the program goes quiet: they are delivered by a later cycle of the
+    // collector thread, with no flush() and no further tracing call to wake it up.
+    {
+        use std::sync::mpsc;
+        struct Slow {
+            seen: Arc<AtomicU64>,
+            inside: mpsc::Sender<()>,
+            hold: Duration,
+        }
+        impl Reporter for Slow {
+            fn report(&mut self, spans: Vec<SpanRecord>) {
+                if spans.iter().any(|s| s.name == "during.first") {
+                    let _ = self.inside.send(());
+                    std::thread::sleep(self.hold);
+                }
+                self.seen.fetch_add(spans.iter().filter(|s| s.name.starts_with("during.second")).count() as u64, Ordering::SeqCst);
+            }
+        }
+        let mut missing = 0u64;
+        for variant in only_variant..only_variant + 1 {
+            let seen = Arc::new(AtomicU64::new(0));
+            let (tx, rx) = mpsc::channel();
+            fastrace::set_reporter(
+                Slow { seen: seen.clone(), inside: tx, hold: Duration::from_millis(interval_ms * 4 + 60) },
+                Config::default().report_interval(Duration::from_millis(interval_ms.max(1))),
+            );
+            drop(Span::root("during.first", SpanContext::new(TraceId(8800 + variant as u128), SpanId(0))));
+            if rx.recv_timeout(Duration::from_secs(5)).is_err() {
+                missing += 1;
+                continue;
+            }
+            // the collector thread is inside report() now
+            let want = match variant {
+                // finished on this (long-lived, already registered) thread
+                0 => {
+                    drop(Span::root("during.second", SpanContext::new(TraceId(8900), SpanId(0))));
+                    1
+                }
+                // finished on a thread that traces for the first time and exits at once
+                1 => {
+                    std::thread::spawn(|| drop(Span::root("during.second", SpanContext::new(TraceId(8901), SpanId(0))))).join().unwrap();
+                    1
+                }
+                // a root with a local span, root handed to another thread
+                _ => {
+                    let root = Span::root("during.second", SpanContext::new(TraceId(8902), SpanId(0)));
+                    {
+                        let _g = root.set_local_parent();
+                        let _l = LocalSpan::enter_with_local_parent("during.second.l");
+                    }
+                    std::thread::spawn(move || drop(root)).join().unwrap();
+                    2
+                }
+            };
+            let t0 = Instant::now();
+            while seen.load(Ordering::SeqCst) < want && t0.elapsed() < deadline + Duration::from_millis(interval_ms * 4 + 60) {
+                std::thread::sleep(Duration::from_micros(500));
+            }
+            missing += want - seen.load(Ordering::SeqCst).min(want);
+        }
+        missing
+    };
+
+    println!("{missing}");
+    (missing > 0) as i32
 }
